@@ -74,7 +74,7 @@ _SC = [["scan", "128", "k25", "k312", "k911", "k303"], ["scan", "8", "a", "b", "
        ["scan", "64", "k1", "k2", "k3", "k4", "k5", "k6", "k7", "k8", "k9", "k10", "k11", "k12"]]
 BOUNDED_SCEN = {
     "C01": _H + [["putget", "5000"], ["putsweep"], ["keys"], ["pertype"]], "C10": [["keys"], ["pertype"]], "C02": [["reopen"], ["durable"], ["dbsync"], ["names"]] + _H[:4], "C03": [["flushdur"], ["durable"], ["dbsync"], ["syncfail"]],
-    "C04": _SC + _H[:2] + [["pertype"]], "C05": _H + [["reuse"]], "C06": [["reuse"], ["putsweep"], ["grow"]] + _H, "C07": [["bufsize", "131072"], ["bufsize", "1000"], ["reopen"], ["dbsync"], ["scan", "4", "a"]] + _H[:1],
+    "C04": _SC + _H[:2] + [["pertype"], ["keys"]], "C05": _H + [["reuse"]], "C06": [["reuse"], ["putsweep"], ["grow"]] + _H, "C07": [["bufsize", "131072"], ["bufsize", "1000"], ["reopen"], ["dbsync"], ["scan", "4", "a"]] + _H[:1],
     "C08": _H, "C09": [["putget", "5000"], ["putget", "70000"], ["putsweep"], ["values"]], "C12": [["reopen"], ["sigmut"]], "C13": [["sigmut"]], "C15": [["readonly"]],
     "C14": [["bulk"]], "C16": [["flushdur"], ["syncfail"]], "C17": [["stats"]], "C18": [["determ"]],
 }
@@ -303,11 +303,24 @@ def check(prop, tier, args):
         if not undecided and rc_ is not None:
             can_ok = 0; can_bad = []
             hit = {f["fn"] for f in rc_.failures if f["kind"] == "assert" and "assert(false)" in f["detail"]}
-            for q, info in cunit.fn_table.items():
-                if info["mode"] != "body" or info["opts"].get("no-canary"): continue
+            cbody = [q for q, info in cunit.fn_table.items() if info["mode"] == "body" and not info["opts"].get("no-canary")]
+            out_of_res = set(rc_.fn_rlimit)
+            if [q for q in cbody if q not in hit and q not in failed_fns] and not rc_.undecided:
+                # a canary that was not reported as failing may simply have run out of resources (the query with assert(false) is a
+                # different one, and its cost depends on what z3 did before it): second run, one z3 process per function, 4x resources
+                rc2_ = run.run_verus(os.path.join(outdir, "canary_%s.rs" % prop), cunit, rlimit=rl * 4, seed=seed + 7919, spinoff=True)
+                checker_cmds.append(rc2_.cmd)
+                hit |= {f["fn"] for f in rc2_.failures if f["kind"] == "assert" and "assert(false)" in f["detail"]}
+                out_of_res = set(rc2_.fn_rlimit)
+                if rc2_.undecided: rc_.undecided.extend(rc2_.undecided)
+            for q in cbody:
                 if q in hit or q in failed_fns: can_ok += 1
                 else: can_bad.append(q)
             cov["canaries_failed_as_required"] = can_ok
+            inconcl = [q for q in can_bad if q in out_of_res]
+            can_bad = [q for q in can_bad if q not in out_of_res]
+            if inconcl:
+                undecided.append("vacuity guard inconclusive (resource limit in the canary query, twice) for %s" % inconcl)
             if can_bad and not rc_.undecided:
                 undecided.append("vacuity: assert(false) at the normal exit verifies in %s" % can_bad)
             elif rc_.undecided and can_bad:
